@@ -64,6 +64,11 @@ Definition bytevec (n : nat) (s : bytes) (c : nat) : pres (lv bytes) :=
   if Nat.ltb (len s - c) n then PErr EEndOfBuffer c
   else POk (sub s c (c + n), c, c + n) (c + n).
 
+(* the length of ByteVecP is a usize: any value up to 2^64-1.  [bytevecN] takes it as a binary number so that
+   absurd lengths (usize::MAX) can be run; it is [bytevec] whenever the length fits the buffer *)
+Definition bytevecN (n : N) (s : bytes) (c : nat) : pres (lv bytes) :=
+  if (N.of_nat (len s - c) <? n)%N then PErr EEndOfBuffer c else bytevec (N.to_nat n) s c.
+
 (* ---------- case protocol entry ----------
    args: kind ("u8" "u16" "u32" "u64" "i8" … "bytes"), endian ("be"/"le") or length, hex buffer, cursor *)
 Definition show_lvN (x : lv N) : bytes :=
@@ -87,5 +92,5 @@ Definition entry (args : list bytes) : bytes :=
   else if bytes_eqb kind (B "i16") then show_pres show_lvZ (iN 1 e s c)
   else if bytes_eqb kind (B "i32") then show_pres show_lvZ (iN 2 e s c)
   else if bytes_eqb kind (B "i64") then show_pres show_lvZ (iN 3 e s c)
-  else if bytes_eqb kind (B "bytes") then show_pres show_lvB (bytevec (parse_nat a1) s c)
+  else if bytes_eqb kind (B "bytes") then show_pres show_lvB (bytevecN (parse_N a1) s c)
   else B "badcase".
